@@ -1,5 +1,6 @@
 (* C04 - Failures are contained: dependants skipped, others run, nothing recorded. *)
 From Verif Require Import Base.Prelude Base.Graph Model.Sorter Model.Expr Model.Engine Model.EngineRun.
+From Verif Require Import Model.EngineRun Model.EngineP Model.EnginePRun Proofs.EnginePRefute.
 From Verif Require Import Proofs.GraphProofs Proofs.SorterProofs Proofs.EngineTask Proofs.EngineLoop
      Proofs.EngineBuild Proofs.EngineDag Proofs.EngineRefute.
 
@@ -73,6 +74,15 @@ Theorem C04_failed_after_restoring_then_unchanged_refuted :
   = [(0, [(1, 0)], [2; 3]); (1, [(1, 1)], [2; 3]); (0, [(1, 3)], [])]%N.
 Proof. exact failed_after_restoring_then_unchanged_refuted. Qed.
 
+(* F31 (known finding): the containment theorems above are about the tasks of the declared graph
+   (Model/Engine.v).  A task that a generator creates AFTER a task it depends on has failed carries no
+   marker and is executed (Model/EngineP.v, which follows the code) *)
+Theorem C04_late_generated_task_refuted :
+  map reports_of (run_phist late_child_history) =
+  [[(1, ocode OFail); (4, ocode OSuccess); (20900, ocode OSuccess); (20907, ocode OSuccess)]]%N.
+Proof. exact late_generated_task_runs_below_failure_refuted. Qed.
+
+Print Assumptions C04_late_generated_task_refuted.
 Print Assumptions C04_failed_descendants_not_started.
 Print Assumptions C04_independent_tasks_unaffected.
 Print Assumptions C04_fail_records_nothing.
